@@ -24,6 +24,9 @@ claimed = {
  "C10": ("dominance/pairing rules on SSA + CHA reachability of global writes (exit guard, fail pairing, fresh interpreter per test, assertion wrapper sibling agreement, reviewed global-state set)",
          "Structural necessary conditions: success exit only behind Fails==0; every failing test bumps the fail counter and records its error; ungrouped tests get a fresh interpreter created inside the statement loop with re-injected testing functions; all 24 assertion closures return the assertion error and pair Fail/Pass with it; no unreviewed package-level state is written during a test. Decides structure for all test files; not coverage-instrumentation equivalence.",
          "trusts go/ssa and the CHA call graph (over-approximate) of x/tools v0.50.0; reviewed-global table in c10.go", "DESIGN.md §4 C10"),
+ "C11": ("recursion-bound analysis on the call graph (SCCs, call edges classified descending/same/re-entry from SSA argument derivations with return-class summaries, depth/visited-set guard recognition by dominance), optional-field nil discipline, phase-ordering dominance in lintVCL, early-exit detection in map range loops, monotone-store rule for the scope fixed point",
+         "Structural necessary conditions: every recursion of the linter descends on the finite syntax tree or is bounded by a visited set (include expansion); optional fields are nil-tested; declarations are hoisted before bodies are linted; no map-ordered loop exits early; scope inference is monotone. Decides termination/crash-freedom/order-independence shapes for all programs and include graphs.",
+         "trusts go/ssa; AST values are finite trees; guards recognised: counter bound (G1), visited set incl. test-and-insert helper (G2)", "DESIGN.md §3 E9/E2, §4 C11"),
  "C12": ("typestate/pairing analysis on SSA (setup/defer-teardown pairing, set symmetry table, single filter funnel with dominance)",
          "Structural necessary conditions: single funnel behind the ignore filter, setup/teardown paired by defer on the same node and outside loops, every set filled by a Setup variant cleared by its Teardown variant under the same directive, IsEnable consults all sets with the rule. Decides that a directive's effect cannot outlive its statement/block; does not decide directive text parsing.",
          "trusts go/ssa; the directive→set table is transcribed from the property statement", "DESIGN.md §4 C12"),
